@@ -289,9 +289,6 @@ Fixpoint first_video_sync (l : list wsmp) : bool :=
   end.
 Definition file_samples (f : segfile) : list wsmp := flat_map o_smps f.(f_parts).
 
-Definition one_video (c : cfg) : bool :=
-  Nat.eqb (length (filter tc_video c.(c_tracks))) 1.
-
 (* ---- the bounds formatFMP4Segment.write / formatFMP4Part.write enforce on a part ----
    size: the payload sizes add up to at most maxPartSize;
    duration (upper): the part was not yet partDuration long when its last sample was added, i.e. without that sample
@@ -313,3 +310,23 @@ Fixpoint parts_bounded (c : cfg) (prev : option (list wsmp)) (l : list sop) : bo
       && parts_bounded c (Some p.(o_smps)) r
   | _ :: r => parts_bounded c None r
   end.
+
+(* ---- "every segment starts on a sync sample", read off the log: seen = a video sample has been written to the
+        segment file that is open ---- *)
+Definition has_video (l : list wsmp) : bool := existsb w_video l.
+Fixpoint sync_scan (seen : bool) (l : list sop) : bool :=
+  match l with
+  | [] => true
+  | SCreate _ _ _ :: r => sync_scan false r
+  | SPart _ p :: r => (seen || first_video_sync p.(o_smps)) && sync_scan (seen || has_video p.(o_smps)) r
+  | SClose _ _ :: r => sync_scan seen r
+  end.
+(* the first sample that track v hands to formatFMP4Track.write is a sync sample (what the gate guarantees) *)
+Fixpoint first_v_sync (v : nat) (evs : list event) : bool :=
+  match evs with
+  | [] => true
+  | (t, s) :: r => if Nat.eqb t v then negb s.(s_nonsync) else first_v_sync v r
+  end.
+Definition video_tracks (c : cfg) : list nat :=
+  filter (fun t => match nth_error c.(c_tracks) t with Some tc => tc.(tc_video) | None => false end)
+         (seq 0 (length c.(c_tracks))).
